@@ -529,6 +529,9 @@ class SCFG(Sized):
         block_type: SyntheticBlock
             The type/class of the newly created block.
         """
+        # Avoid cyclic imports
+        from numba_scfg.core.transformations import update_exiting
+
         # TODO: needs a diagram and documentaion
         # initialize new block
         new_block = block_type(
@@ -550,7 +553,13 @@ class SCFG(Sized):
                             jt.pop(jt.index(s))
             else:
                 jt.append(new_name)
-            self.add_block(block.replace_jump_targets(jump_targets=tuple(jt)))
+            block = block.replace_jump_targets(jump_targets=tuple(jt))
+            # If the predecessor is a region, the exiting block inside of it
+            # needs to point to the inserted block too.
+            if isinstance(block, RegionBlock):
+                for s in successors:
+                    block = update_exiting(block, s, new_name)
+            self.add_block(block)
 
     def insert_SyntheticExit(
         self,
@@ -623,6 +632,9 @@ class SCFG(Sized):
         --------
         numba_scfg.core.datastructures.scfg.SCFG.insert_block
         """
+        # Avoid cyclic imports
+        from numba_scfg.core.transformations import update_exiting
+
         # TODO: needs a diagram and documentaion
         # name of the variable for this branching assignment
         branch_variable = self.name_gen.new_var_name("control")
@@ -658,11 +670,14 @@ class SCFG(Sized):
                 # time, such that a branching predecessor can update its
                 # branch value table
                 jt[jt.index(s)] = synth_assign
-                self.add_block(
-                    self.graph.pop(name).replace_jump_targets(
-                        jump_targets=tuple(jt)
-                    )
+                block = self.graph.pop(name).replace_jump_targets(
+                    jump_targets=tuple(jt)
                 )
+                # If the predecessor is a region, the exiting block inside
+                # of it needs to point to the assignment block too.
+                if isinstance(block, RegionBlock):
+                    block = update_exiting(block, s, synth_assign)
+                self.add_block(block)
         # initialize new block, which will hold the branching table
         new_block = SyntheticHead(
             name=new_name,
